@@ -99,7 +99,7 @@ MASK_MODES_NOALL = st.sampled_from(["dense", "dense", "dense", "none", "one", "s
 @st.composite
 def dataset(draw, max_inputs=4, min_inputs=1, clim="maybe", flavor="det", core_max=3, extra_max=2,
             allow_drop=True, allow_obsless=True, boundary_heavy=True, ordered_dims=False, max_members=4,
-            var_x=False, allow_all_missing=True, half_hours=False, other_pool=("temp", "wind", "zscore"), per_input_layout=True, before_2037=False):
+            var_x=False, allow_all_missing=True, half_hours=False, other_pool=("temp", "wind", "zscore"), per_input_layout=True, before_2037=False, own_obs=False):
     """flavor: 'det' (obs, fcst) | 'prob' (+cdf, quantiles, pit) | 'ens' (+ensemble) | 'full' (all) | 'mix' """
     if flavor == "mix":
         flavor = draw(st.sampled_from(["det", "det", "prob", "ens", "full"]))
@@ -223,6 +223,12 @@ def dataset(draw, max_inputs=4, min_inputs=1, clim="maybe", flavor="det", core_m
         d = inputs[k]
         d["obs"] = [[[None if m[a][b][c] is None else truth[d["ti"][a]][d["li"][b]][d["si"][c]]
                       for c in range(shape[2])] for b in range(shape[1])] for a in range(shape[0])]
+    if own_obs and n_inputs > 1:
+        # files that disagree about the observations (accepted by the program: each file is then scored against
+        # its own column); only used by checks whose oracle is differential (history independence)
+        for d in inputs[1:]:
+            if d["obs"] is not None and draw(st.sampled_from([False, False, True])):
+                d["obs"] = [[[None if v is None else draw(val()) for v in row] for row in pl] for pl in d["obs"]]
     spec = {"times": times, "leadtimes": [float(l) for l in leads], "locs": locs,
             "var": {"name": "Temp", "units": "K", "x0": None, "x1": None},
             "inputs": inputs, "clim": None}
